@@ -2540,7 +2540,7 @@ func genTypes(repo, out string) {
 	var sb strings.Builder
 	sb.WriteString("/-! GENERATED by /verif/extract (gotrans.go) from /repo/types/types.go and /repo/utils/utils.go on every check run. Do not edit.\n")
 	sb.WriteString("    `compareKeys` = `types.CompareKeys` (Go int result as `Int`; `strings.Compare`, `ParseKey`, `ParseTs` are the parameters\n")
-	sb.WriteString("    `cmpS`, `parseKey`, `parseTs`), `isSameKey` = `types.IsSameKey`, `lcp` = `utils.LCP` (a string is its list of bytes, `a[i]` is\n")
+	sb.WriteString("    `cmpS`, `parseKey`, `parseTs`), `isSameKey` = `types.IsSameKey`, `value` = `types.Value` (`(nil, false)` is `none`), `lcp` = `utils.LCP` (a string is its list of bytes, `a[i]` is\n")
 	sb.WriteString("    `a.getD i 0`, read only below both lengths). `Model/TypesTie.lean` proves them equal to `Key.compareKeys?` and `Codec.lcp`. -/\n")
 	sb.WriteString("set_option linter.unusedVariables false\nnamespace GenTypes\n\n")
 	emit := func(fd *ast.FuncDecl, what string, sp transSpec, pre string) {
@@ -2576,6 +2576,23 @@ func genTypes(repo, out string) {
 		ret:      func(vals []string, st []string) string { return vals[0] },
 		fallOff:  func(st []string) string { return "false" },
 		panicVal: "false",
+	}, "")
+	emit(findFunc(pt, "", "Value"), "types.Value", transSpec{
+		leanName: "value",
+		binders:  "{β : Type} (tomb : Bool) (v : β)",
+		retType:  "Option β",
+		exprMap:  map[string]string{"entry.Tombstone": "tomb", "entry.Value": "v"},
+		ret: func(vals []string, st []string) string {
+			if len(vals) == 2 && vals[1] == "true" {
+				return "(some " + vals[0] + ")"
+			}
+			if len(vals) == 2 && vals[1] == "false" {
+				return "none"
+			}
+			return "sorryUnsupported"
+		},
+		fallOff:  func(st []string) string { return "none" },
+		panicVal: "none",
 	}, "")
 	emit(findFunc(pu, "", "LCP"), "utils.LCP", transSpec{
 		leanName: "lcp",
